@@ -62,7 +62,7 @@ def rule_n0(chk: Check, ix: Index):
                 chk.require(kind is not None, "N0-state-inventory", key, f"{f.rel}:{n.lineno}",
                             f"`{norm_stmt(n)[:60]}` writes `{owner}.{base.attr}`, which is not position-keyed, not a balanced counter and "
                             f"has no set/reset pairing: it can carry over from one statement into the next")
-    chk.floor("N0-state-inventory", 40)
+    chk.floor("N0-state-inventory", 30)
 
 
 def rule_counter(chk: Check, ix: Index):
@@ -154,5 +154,5 @@ def run(chk: Check):
     rule_counter(chk, ix)
     rule_newline_neutral(chk, ix)
     chk.floor("M3-flag-typestate", 12)
-    chk.floor("N2-path-token", 4)
+    chk.floor("N2-path-token", 1)
     chk.floor("M5-indent-balance", 4)
